@@ -91,7 +91,8 @@ func (l *List) ScanPrefix(prefix []byte, errOut *error) iter.Seq[kv.Entry] {
 	tables := l.tablesSnap()
 	iters := make([]iter.Seq[kv.Entry], len(tables))
 	for i, table := range tables {
-		iters[i] = table.ScanPrefix(prefix)
+		// Keep delete markers, they mask entries in older tables
+		iters[i] = table.ScanPrefixAll(prefix)
 	}
 	return kv.MergeEntries(iters)
 }
